@@ -6,7 +6,8 @@
    dataplane's view (fold of the emitted stream), `ep_verdict` the endpoint's verdict under Common/PolicyRef.v. *)
 From Coq Require Import List NArith Bool.
 From Verif.Common Require Import Packet PolicyRef Labels.
-From Verif.C05 Require Import Model Spec ProofsFilter ProofsProfiles ProofsStep ProofsVerdict ProofsMain ProofsOracle.
+From Verif.C05 Require Import Model Spec ProofsFilter ProofsProfiles ProofsStep ProofsVerdict ProofsMain ProofsOracle
+  ProofsPolicies ProofsIndex ProofsPolStep ProofsPolMain.
 Import ListNotations.
 Open Scope N_scope.
 
@@ -96,11 +97,50 @@ Theorem c05_model_meets_spec_profiles : forall (validate : value -> bool) h,
 Proof. exact model_meets_spec_profiles. Qed.
 Print Assumptions c05_model_meets_spec_profiles.
 
+(* Policies (and, through them, tiers): after EVERY history - referenced policies created late, deleted while
+   selected, replaced by invalid versions - and under EVERY order in which the label index makes its callbacks
+   (the schedules carried by the inputs are arbitrary: wrong, partial or duplicated entries included), the
+   dataplane holds policy k exactly when the filtered datastore has k and k selects an endpoint of the filtered
+   datastore or is force-programmed, and then it holds the datastore's current version: an invalid or deleted
+   version is never left applied, nothing is partially applied, nothing else is dropped. *)
+Theorem c05_policies_exact : forall (validate : value -> bool) h k,
+  let d := ds_of validate ds0 h in
+  aget k (v_pols (view_of (run validate st0 h))) =
+  match aget k (d_pols d) with
+  | Some q => if selects q d then Some q else None
+  | None => None
+  end.
+Proof. exact policies_exact. Qed.
+Print Assumptions c05_policies_exact.
+
+(* The policy part of the oracle accepts every run of the model. *)
+Theorem c05_model_meets_spec_policies : forall (validate : value -> bool) h,
+  ok_policies (ds_of validate ds0 h) (view_of (run validate st0 h)) = true.
+Proof. exact model_meets_spec_policies. Qed.
+Print Assumptions c05_model_meets_spec_policies.
+
+(* Non-vacuity for the policy theorems: policy 5 (selector a == "x", tier 9 which does not exist) becomes active
+   when endpoint 0 gets the label, is replaced by an invalid version (validate rejects tier 99) -> removed from the
+   dataplane although the endpoint still matches the old version; the schedule of the endpoint update is wrong on
+   purpose (names a pair that is not affected): the model ignores it. *)
+Definition ex_allow : crule := {| cr_action := Allow; cr_proto := Some 6; cr_dports := [(80, 80)]; cr_tag := 0 |}.
+Definition ex_validate2 (v : value) : bool := match v with VPol q => negb (N.eqb (po_tier q) 99) | _ => true end.
+Definition ex_pol (t : N) : policy :=
+  {| po_tier := t; po_order := Some 1; po_sel := SEq [97] [120]; po_in := [ex_allow]; po_out := []; po_force := false |}.
+Example c05_example_policies :
+  run ex_validate2 st0
+    [ write (KPol 5) (Some (VPol (ex_pol 9))) [] [];
+      write (KEp 0) (Some (VEp {| ep_labels := [([97], [120])]; ep_profiles := [] |})) [(false, 7, 7)] [];
+      write (KPol 5) (Some (VPol (ex_pol 99))) [] [] ]
+  = [ [EStats 0 1 0];
+      [EPolActive 5 (ex_pol 9); EMatch 5 0];
+      [EPolInactive 5; EMatchStop 5 0; EStats 0 0 0] ].
+Proof. vm_compute. reflexivity. Qed.
+
 (* Non-vacuity: endpoint 0 names profiles [7; 8]; 7 is missing -> stand-in; 7 is then written -> its own rules;
    an invalid version (validate rejects rules tagged 99) -> stand-in again; deleted endpoint -> profile removed. *)
 Definition ex_validate (v : value) : bool :=
   match v with VProf r => negb (existsb (fun c => N.eqb (cr_tag c) 99) (pr_in r)) | _ => true end.
-Definition ex_allow : crule := {| cr_action := Allow; cr_proto := Some 6; cr_dports := [(80, 80)]; cr_tag := 0 |}.
 Definition ex_bad : crule := {| cr_action := Allow; cr_proto := None; cr_dports := []; cr_tag := 99 |}.
 Definition ex_history : list input :=
   [ write (KProf 8) (Some (VProf {| pr_in := []; pr_out := [ex_allow] |})) [] [];
